@@ -1373,7 +1373,8 @@ _IMMATERIAL = ('dtype', 'out', 'precision', 'preferred_element_type', 'device', 
 _API_NAMES = {
     'jnp': {
         'array': dict(object='x'), 'asarray': dict(a='x'), 'stack': dict(arrays='items'), 'concatenate': dict(arrays='items'),
-        'hstack': dict(tup='items'), 'sum': dict(a='x'), 'tile': dict(A='a'), 'reshape': dict(newshape='shape'),
+        'hstack': dict(tup='items'), 'column_stack': dict(tup='items'), 'vstack': dict(tup='items'), 'broadcast_to': dict(array='a'),
+        'sum': dict(a='x'), 'tile': dict(A='a'), 'reshape': dict(newshape='shape'),
         'diag': dict(v='a'), 'any': dict(a='x'), 'all': dict(a='x'), 'unravel_index': dict(indices='idx'),
         'split': dict(ary='a', indices_or_sections='indices'), 'where': dict(condition='c', x='a', y='b'),
         'full': dict(fill_value='value'), 'full_like': dict(fill_value='v'), 'eye': dict(N='n'),
@@ -1388,6 +1389,7 @@ _API_NAMES = {
                                                                                pytree_to_transpose='tree')},
     'jax.tree': {'reduce': dict(function='f'), 'transpose': dict(outer_treedef='outer', inner_treedef='inner',
                                                                  pytree_to_transpose='tree')},
+    'jax.nn': {'one_hot': dict(x='i', num_classes='n')},
     'jax': {'grad': dict(fun='f'), 'hessian': dict(fun='f'), 'jacrev': dict(fun='f'), 'jacfwd': dict(fun='f'), 'jvp': dict(fun='f'),
             'vmap': dict(fun='f'), 'jit': dict(fun='f'), 'value_and_grad': dict(fun='f')},
     'eqx': {'tree_at': dict(pytree='pytree_'), 'is_array': dict(element='x'), 'is_inexact_array': dict(element='x'),
@@ -1487,7 +1489,7 @@ def make_world_externals(world_ref):
     jaxtyping = NS("jaxtyping", **{k: Subscriptable(k) for k in
                                    ("Float", "Int", "Bool", "Key", "PyTree", "Num", "Shaped")})
     jaxtyping.Array = jax.Array
-    _apply_api_names(jnp, jnp.linalg, tree_util, tree, lax, random, jax, eqx, optax)
+    _apply_api_names(jnp, jnp.linalg, tree_util, tree, lax, random, jax, jax.nn, eqx, optax)
     externals = {
         'jax': jax, 'jax.numpy': jnp, 'equinox': eqx, 'optax': optax, 'typing': typing, 'jaxtyping': jaxtyping,
         'functools': NS("functools", partial=functools.partial, reduce=functools.reduce),
@@ -1506,7 +1508,10 @@ def make_world_externals(world_ref):
                        attrgetter=_attrgetter),
         'numpy': NS("numpy", asarray=_np_asarray, cumsum=_np_cumsum, ndarray=ExternalClass('np.ndarray')),
         'math': NS("math", prod=_math_prod),
-        'copy': NS("copy", deepcopy=lambda x: x),
+        'copy': NS("copy", deepcopy=lambda x: x, copy=lambda x: x),
+        'itertools': NS("itertools", **{k: getattr(__import__('itertools'), k) for k in
+                                        ('count', 'product', 'chain', 'repeat', 'zip_longest', 'accumulate', 'islice', 'starmap',
+                                         'combinations', 'permutations', 'cycle', 'tee', 'takewhile', 'dropwhile')}),
     }
     builtins = dict(
         range=_range, len=_len, tuple=tuple, list=list, dict=dict, set=set, frozenset=frozenset, enumerate=enumerate,
